@@ -204,6 +204,12 @@ def equity_programs(tick, unit):
     ]
 
 
+def metrics_reader(tick, unit):
+    """round trips all day long; the strategy reads self.metrics every time a trade closes"""
+    return ('round-trips-reading-metrics', {'tick': tick, 'unit': unit, 'side': 'long', 'enter': {'when': 'flat', 'legs': [[1, 0]]},
+                                            'on_open': {'sl': 'all', 'tp': 'all', 'sl_d': 3, 'tp_d': 3}, 'cancel_entry': True, 'read_metrics': True})
+
+
 def _equity_session(args):
     kind, nroutes, order, progs_pair, minutes, emb, fast = args[:7]
     tf = args[7] if len(args) > 7 else '1m'
@@ -248,6 +254,9 @@ def _equity_session(args):
         if k not in (0, len(eq) - 1) and abs(e[2] - case['cfg']['balance']) > 1e-9:
             out['nontrivial'] = True
     end = r['end']
+    if end and len(end['daily_balance']) != len(eq):
+        out['viols'].append(Violation('equity-sample-count', dict(sig0, source='store'), ident,
+                                      'store.app.daily_balance has %d entries at the end, %d samples were taken' % (len(end['daily_balance']), len(eq))).to_json())
     if end and eq:
         q = 'USDT'
         final = end['assets'][q]
@@ -306,6 +315,10 @@ def run(ctx):
                 for order in ('given', 'reversed'):
                     ejobs.append((kind, 2, order, [pa, pb], minutes, emb, False))
         ejobs.append((kind, 2, 'given', [P[0], P[1]], 1445, emb, True))
+    # a strategy that reads its running metrics after every closed trade
+    for kind in ('futures', 'spot'):
+        for fast in (False, True):
+            ejobs.append((kind, 1, 'given', [metrics_reader(emb[1], emb[2])], 1445, emb, fast, '1m' if not fast else '5m'))
     # trading timeframes above 1m (the fast simulator then works in chunks, up to several days long), both simulators
     P = equity_programs(emb[1], emb[2])
     for tf, minutes in (('15m', 2 * 1440 + 7), ('4h', 2 * 1440 + 250), ('1D', 3 * 1440 + 10), ('3D', 4 * 1440 + 7)):
@@ -334,7 +347,7 @@ def run(ctx):
 def replay(case, ctx):
     if case.get('equity'):
         emb = tuple(case.get('embedding') or ctx.embedding)
-        P = dict(equity_programs(emb[1], emb[2]))
+        P = dict(equity_programs(emb[1], emb[2]) + [metrics_reader(emb[1], emb[2])])
         pp = [(n, P[n]) for n in case['programs']]
         order = 'given' if case['routes'] == list(S.SYMS[:len(case['routes'])]) else 'reversed'
         r = _equity_session((case['kind'], len(case['routes']), order, pp, case['minutes'], emb, case['fast'], case.get('tf', '1m')))
